@@ -777,6 +777,76 @@ func (r *run) restPatch(e Ev) {
 	}
 }
 
+// patchSync: a REST patch of a document and the Sync of a client that has just changed the same document
+// are sent at the same moment; their database commands interleave by the seeded choice. Afterwards
+// the usual monitors run (C11: the user document is the JSON view of a log prefix at its recorded
+// version; C19: the answer of the patch is its target).
+func (r *run) patchSync(e Ev) {
+	w := r.w
+	a := r.actor(e.A)
+	if !a.connected || a.realtime {
+		return
+	}
+	a.mu.Lock()
+	busy := a.syncing > 0
+	a.mu.Unlock()
+	if busy {
+		return
+	}
+	var d *dtState
+	for _, x := range a.dts {
+		if x.kind == "doc" && x.dt.GetState() == model.StateOfDatatype_SUBSCRIBED {
+			d = x
+		}
+	}
+	if d == nil {
+		return
+	}
+	g := kernel.NewRng(e.S + 777)
+	r.local(a, d, apiOf(d.pub), Ev{T: "local", A: e.A, Op: "dput", K: "note", V: []interface{}{fmt.Sprintf("n%d", g.Intn(1000))}})
+	target := kernel.Canon(map[string]interface{}{"patched": float64(g.Intn(100)), "title": "t"})
+	if !r.startSync(a) {
+		return
+	}
+	synctest.Wait()
+	done := make(chan callResult, 1)
+	ep := &endpoint{t: w.tr, name: "rest-p"}
+	req := &model.PatchMessage{Collection: a.collection, Key: d.key, Json: target}
+	go func() {
+		m, err := ep.t.issue(ep.name, "PatchDocument", req)
+		done <- callResult{msg: m, err: err}
+	}()
+	synctest.Wait()
+	f := &focus{calls: map[*call]bool{}, owners: map[string]bool{}}
+	for _, c := range w.tr.byState("queued") {
+		if c.client == a.name || c.client == "rest-p" {
+			f.calls[c] = true
+			f.owners[callOwner(c)] = true
+		}
+	}
+	r.probe("rest-patch")
+	r.probe("rest-patch-with-sync")
+	r.pump(f, g, nil, false, "")
+	synctest.Wait()
+	select {
+	case res := <-done:
+		r.noteRest("rest-p", res)
+		if res.err == nil {
+			pm, _ := res.msg.(*model.PatchMessage)
+			if pm == nil || kernel.CanonBytes([]byte(pm.Json)) != target {
+				got := ""
+				if pm != nil {
+					got = pm.Json
+				}
+				r.fail("rest", "C19.rest-response-equals-target", "with-sync/response-differs", "PatchDocument(%s/%s) sent together with a client's push was answered without error, but not with its target:\n  target  : %s\n  response: %q", a.collection, d.key, target, got)
+			}
+		}
+	default:
+		r.fail("answered", r.prop+".answered", "no-answer/patchsync", "PatchDocument(%s/%s) sent together with a client's push got no answer", a.collection, d.key)
+	}
+	r.checkClientCrash()
+}
+
 // noteRest keeps the outcome of a REST call for the observations of scenario runs.
 func (r *run) noteRest(who string, res callResult) {
 	if !r.cfg.Observe {
